@@ -18,7 +18,7 @@ ASSUMPTIONS = ['post-processing randomness (synthetic-data rounding, reverse_dat
                'run 1 repeated with the same seeds must reproduce its own log exactly, otherwise the case is inconclusive (harness_deterministic)',
                'FactoredInference iteration counts capped (post-processing only); environment adapters as in C05']
 PLAN = {
-    'quick': dict(cases=48, budget_s=100, case_timeout=900, min_cases=16),
+    'quick': dict(cases=48, budget_s=200, case_timeout=900, min_cases=10),
     'thorough': dict(cases=600, budget_s=1200, case_timeout=1800, min_cases=100),
 }
 
